@@ -1067,7 +1067,7 @@ class CallMixin:
             return V(v.ty, v.t)
         raise Unsupported("list() of %s" % v.ty)
 
-    def bi_dict(self, node, env):
+    def _bi_dict_genexp(self, node, env):
         """C17: dict((e1, e2) for (a, b) in NAME.items()) where NAME is a module-level constant whose value is a dict
         LITERAL (e.g. packet.PACKET_LONG_TYPE_DECODE_VERSION_1, the inversion of the ENCODE table): the generator is
         unrolled over the literal's entries in source order (later entries overwrite earlier ones, as dict() does).
@@ -1099,7 +1099,7 @@ class CallMixin:
                                 dom = z3.Store(dom, sym.coerce(k, ty.k).t, True)
                                 val = z3.Store(val, sym.coerce(k, ty.k).t, sym.coerce(v, ty.v).t)
                             return sym.dict_mk(ty, dom, val)
-        raise Unsupported("dict(...) call")
+        return None
 
     def bi_set(self, node, env):
         if not node.args:
@@ -1111,6 +1111,11 @@ class CallMixin:
         (domain array, value array) in this engine, so the copy is the same value; never fails."""
         if not node.args and not node.keywords:
             return EmptyLiteral("dict")
+        if len(node.args) == 1 and not node.keywords and isinstance(node.args[0], ast.GeneratorExp):
+            r = self._bi_dict_genexp(node, env)  # C17: inversion of a module-level dict literal
+            if r is None:
+                raise Unsupported("dict(...) call")
+            return r
         if len(node.args) == 1 and not node.keywords:
             v = self.eval(node.args[0], env)
             if isinstance(v, EmptyLiteral) and v.kind == "dict":
@@ -1306,6 +1311,12 @@ class CallMixin:
             lp = sym.bytes_len(p)
             return sym.mk_bool(z3.And(sym.bytes_len(recv) >= lp, z3.ForAll([k], z3.Implies(z3.And(0 <= k, k < lp), z3.Select(sym.bytes_data(recv), k) == z3.Select(sym.bytes_data(p), k)))))
         key = "%s.%s" % ({TBytes: "bytes", TStr: "str", TInt: "int"}.get(ty, "list" if isinstance(ty, TList) else "dict"), name)
+        if ty == TBytes and name == "decode" and len(node.args) == 2 and isinstance(node.args[1], ast.Constant) and isinstance(node.args[1].value, str):
+            # bytes.decode(codec, "<handler literal>"): a stub registered for that error handler takes precedence over the
+            # generic one ("bytes.decode:ignore" is total, the generic stub may raise UnicodeDecodeError)
+            k2 = "bytes.decode:" + node.args[1].value
+            if k2 in self.registry.contracts:
+                key = k2
         c = self.registry.contracts.get(key)
         if c is not None:
             return self.apply_stub(c, key, [recv] + list(args), kwargs, node)
